@@ -288,14 +288,17 @@ fn program(rng: &mut Rng, kind: FaultKind, inject: bool, depth: usize) -> Progra
     if rng.chance(1, 2) {
         items.push(simple("END"));
     }
+    // a third of the procedures are STATIC (their activation records are entered by a different instruction)
+    let is_static: Vec<bool> = (0..depth).map(|_| rng.chance(1, 3)).collect();
     for k in 1..=depth {
+        let st = if is_static[k - 1] { " STATIC" } else { "" };
         if is_fn[k - 1] {
-            items.push(alone(format!("FUNCTION F{}% (N%)", k)));
+            items.push(alone(format!("FUNCTION F{}% (N%){}", k, st)));
             items.extend(bodies[k].clone());
             items.push(simple(format!("F{}% = N% + 1", k)));
             items.push(alone("END FUNCTION"));
         } else {
-            items.push(alone(format!("SUB P{} (N%)", k)));
+            items.push(alone(format!("SUB P{} (N%){}", k, st)));
             items.extend(bodies[k].clone());
             items.push(alone("END SUB"));
         }
